@@ -26,6 +26,24 @@ let () =
       | Decode.DIndexError -> "(error IndexError)"
       | Decode.DRuntimeError -> "(error RuntimeError)") (match vss with L l -> l | _ -> failwith "list expected")
     | _ -> "!args");
+  (* (wf FLAT): the hypotheses of the C14 theorems on this flat record: wf_layout, act_keys_distinct *)
+  register "wf" (function [f] ->
+    let fb = Wire_flat.flat_of_sexp f in
+    show_bool (LayoutWf.wf_layout fb) ^ " " ^ show_bool (DecodeWf.act_keys_distinct fb)
+    | _ -> "!args");
+  (* (geomobs FLAT WB ((f l) ...) ((f b) ...)): ranges | varlists of each (f l) | trial numbers of each (f b),
+     the same functions as the commands ranges / varlists / trialnos, the flat record parsed once *)
+  register "geomobs" (function [f; wb; fls; fbs] ->
+    let fb = Wire_flat.flat_of_sexp f in
+    let g = Wire_flat.geom_of_sexp wb in
+    let pair = function L [a; b] -> (a, b) | _ -> failwith "pair" in
+    let r = show_opt (show_list show_pair) (Layout.map_block_trial_ranges fb g) in
+    let vs = Stdlib.List.map (fun x -> let (fi, l) = pair x in
+        show_opt (show_list show_natlist) (Layout.build_variable_lists fb (nat_of_sexp fi) (nat_of_sexp l) g)) (list_of_sexp (fun x -> x) fls) in
+    let ts = Stdlib.List.map (fun x -> let (fi, b) = pair x in
+        show_opt show_natlist (Layout.get_trial_numbers fb (nat_of_sexp fi) (z_of_sexp b) g)) (list_of_sexp (fun x -> x) fbs) in
+    r ^ " | " ^ Stdlib.String.concat " ; " vs ^ " | " ^ Stdlib.String.concat " ; " ts
+    | _ -> "!args");
   (* (layout FLAT): vpt grid vps support | encode for every act factor/level/trial | decode 1..vps | variable_list_for_trial *)
   register "layout" (function [f] ->
     let fb = Wire_flat.flat_of_sexp f in
